@@ -65,6 +65,10 @@ package mr
 //@   opaque newGuardedWriter, drain
 //@   loop 1 iteration-ensures [slot-then-item-then-worker] calls("send") == 1 && calls("recv") == 1 && before("send", "recv") && calls("wg.Add") == 1 && calls("go executeMappers$2") == 1 && before("wg.Add", "go executeMappers$2")
 //@   ensures [waits-then-closes] calls("wg.Wait") == 1 && calls("close") == 1 && before("wg.Wait", "close") && calls(drain) == 1
+// the collector is closed - which lets the reducer finish and the call return (with the context's error, a mapper's
+// panic, the cancel error) - BEFORE the rest of the source is drained: draining ends only when the generator returns,
+// and a call whose context is done must not wait for a slow, blocked or endless generator
+//@   ensures [closes-the-collector-before-draining-the-source] before("close", drain) && before("wg.Wait", drain) && arg(drain, 0) == mCtx.source && calls(on("close", mCtx.collector)) == 1
 
 // A worker: maps its item exactly once and always gives back its pool slot and signs off (also when the
 // mapper panics; the panic is handed to the caller through panicChan and stops further spawning).
